@@ -8,10 +8,39 @@ PROPERTY = "C02"
 HASHSEED_SLICE = True
 
 
+T = "\t".join
+# lines that are refused half-way: a path whose first steps resolve and whose
+# last step names a line of another kind (another path, an ID-tagged link)
+# (line, the identifier it wrongly uses as a segment): offered only in states
+# in which that identifier is a line of another kind, i.e. when it is refused
+REFUSED_LATE = {
+    "gfa1": [(T(["P", "z", "A+,B+,p+", "*"]), "p"),
+             (T(["P", "z", "B-,A-,r+", "*"]), "r"),
+             (T(["P", "z", "A+,C+,x-", "*"]), "x"),
+             (T(["L", "C", "+", "p", "+", "*"]), "p"),
+             (T(["C", "B", "+", "r", "-", "0", "*"]), "r")],
+    "gfa2": [(T(["E", "*", "c+", "o1-", "0", "1", "0", "1", "*"]), "o1"),
+             (T(["G", "*", "c-", "u1+", "1", "*"]), "u1"),
+             (T(["E", "*", "b-", "g1+", "0", "1", "0", "1", "*"]), "g1")],
+}
+
+
 class S(explore.Spec):
   rename_targets = ("Z", "B")
   reparse = True
   follow_errors = True
+
+  def extra_ops(self, g, env, hist):
+    out = []
+    for l, bad in REFUSED_LATE.get(self.version, []):
+      try:
+        x = g.line(bad)
+      except Exception:
+        x = None
+      if x is not None and not observe.is_virtual(x) and \
+          observe.rt_of(x) != "S":
+        out.append(("add", l))
+    return out
 
   def judge(self, g, env, hist, op, err):
     if err is not None and not isinstance(err, gfapy.Error):
